@@ -1338,6 +1338,12 @@ class Executor:
                     return VInt(a % b)
             if isinstance(op, (ast.BitOr, ast.BitAnd, ast.LShift, ast.RShift)):
                 return VInt(self.bitop(st, op, a, b))
+        if isinstance(op, ast.Mult) and isinstance(l, VList) and isinstance(r, VInt) and r.conc() is not None \
+                and all(isinstance(x, VInt) for x in l.items):
+            # [0] * N: a C array declared in the .pyx (pyxfront) -- N slots with the given initial values
+            nl = VList([VInt(x.t) for _ in range(r.conc()) for x in l.items], fresh=True)
+            nl.bytes = True
+            return nl
         if isinstance(op, ast.Add):
             if isinstance(l, VStr) and isinstance(r, VStr):
                 return V.concat(st.ctx, [l, r], kind=l.kind)
